@@ -7,6 +7,26 @@ HERE = os.path.dirname(os.path.dirname(os.path.abspath(__file__)))
 
 # id -> (technique, what the check decides, trusted / assumed)
 CLAIMED = {
+    'C03': ('guard (path-condition) normal forms + forward abstract interpretation over a statement CFG ({none, checked, unchecked}) for next_taxon',
+            'Decides the threshold guard (conjunct set, <= with equality, lineage order, first hit), the ancestors walk, argmin + same-index pairing and the non-strict result fields, '
+            'that EVERY taxon returned as "next" has passed a threshold-present test on every path (this rule found the repaired next_taxon defect), the reportable walk and the wiring in get_result_item.',
+            'np.argmin returns the first minimum; composition of the clauses for every forest is a hand argument.'),
+    'C04': ('def-use + structured dominance (guards that must dominate success), dictionary orientation, sibling agreement of the two suffix groups',
+            'Decides that genome/index lists are built in one block under one guard from one enumerate over the non-strict, order-preserving per-ID lookup; id map orientation; that the id_attr and completeness raises dominate every normal exit of the constructor; '
+            'id attribute whitelist; exactly-one-file checks before a file is taken; that query() uses signatures, index list and genomes of one database object.',
+            'SQLAlchemy row order (entity, added column); dict.get.'),
+    'C09': ('call-site rule with keyword resolution on the ordering expression + package-wide sweep of ordering calls',
+            'Decides that the closest-genomes order is produced by a stable ascending sort of the whole distance row (found the repaired unstable-argsort defect), truncated by a prefix slice afterwards, that the closest match is the first minimum, '
+            'that every entry pairs genome and distance through the one index and derives its taxon from that distance; every other ordering call in the package is classified.',
+            "np.argsort kind='stable' is stable, the default is not; np.argmin first minimum."),
+    'C10': ('program-dependence rule on the consensus fold (conflict latch) + guard normal forms for warnings / failure flags / primary-match filter',
+            'Decides necessary conditions: the fold cannot re-specialise after a conflict (latch initialised, set at every truncation, never cleared, tested before descending - found the repaired order-dependence defect), '
+            'others / empty / no-common-ancestor exits, warning exactly under the conflicting set, failure exactly under no consensus, primary match = nearest candidate at or below the consensus.',
+            'Correctness of trunk.index / suffix slicing as an LCA search for every forest is a hand argument (necessary conditions only).'),
+    'C13': ('def-use through the future->index map + structured dominance (schedule-independent by construction)',
+            'Decides for EVERY completion order that a result is stored at the submit-time index of its own future (map store at the submit site, store index defined as map[f] of the same f, pre-sized list, no positional collection), '
+            'that every future is awaited via .result() outside any handler, sequential branch order, worker identity, executor lifetime, list-preserving result.',
+            'concurrent.futures semantics (result() re-raises; as_completed yields each future once).'),
     'C01': ('affine normal forms of the search-window / slice arithmetic + structured path conditions + sibling agreement + exhaustive evaluation of the dtype table',
             'Decides the premises of the set-equality argument: both search loops (start, window end, restart at loc+1, exit on miss, yielded '
             'position and strand), slice bounds per strand and their composition with the yielded positions (adjacent to the prefix, length k, '
